@@ -303,7 +303,7 @@ class ConcreteSource:
 # ---------------------------------------------------------------------------------------------------
 class Job:
     def __init__(self, name, fn, params=None, timeout_ms=20000, max_paths=200000, validate=1, budget_s=None,
-                 expect_raises=(), hash_mode='realize', family=None, max_decisions=100000, use_shim=True):
+                 expect_raises=(), hash_mode='realize', family=None, max_decisions=100000, use_shim=True, allow_limit=False):
         self.name = name
         self.fn = fn
         self.params = params or {}
@@ -316,6 +316,7 @@ class Job:
         self.family = family or name.split('[')[0]
         self.max_decisions = max_decisions
         self.use_shim = use_shim
+        self.allow_limit = allow_limit  # paths cut by max_decisions are counted (non-terminating library loop), not an error
 
 
 def _values_from_model(ctx, S, model):
@@ -403,6 +404,9 @@ def run_job(job, seed=0):
         summ['paths'] += 1
         idx = summ['paths']
         summ['decisions'] += pr.ndecisions
+        if pr.outcome == 'limit' and job.allow_limit and 'decisions' in str(pr.exc):
+            summ['cut_paths'] = summ.get('cut_paths', 0) + 1
+            return
         if pr.outcome in ('unsupported', 'limit'):
             summ['errors'].append({'kind': pr.outcome, 'msg': str(pr.exc)[:500], 'path': idx,
                                    'tb': '\n'.join(getattr(pr, 'tb', '').splitlines()[-14:])})
@@ -748,6 +752,7 @@ def main_check(pid, module, tier, jobs, meta, procs=None):
             'int_realizations': tot('realizations'), 'infeasible_paths_pruned': tot('infeasible'),
             'validation_skipped_rounding': tot('validation_skipped'),
             'expected_exceptions_paths': tot('expected_raises'),
+            'paths_cut_at_decision_bound': tot('cut_paths'),
             'jobs': len(summaries), 'exhaustive': all(s.get('exhausted', False) for s in summaries),
             'goal_labels': labels,
             'functions_encoded': meta.get('functions', []),
